@@ -123,7 +123,7 @@ pub fn build_esds_at(tn: u32, region: usize, inner: bool) -> Vec<u8> {
     let mut mvhd = MvhdBox::default();
     mvhd.timescale = 1000;
     mvhd.next_track_id = tn + 1;
-    let trak_of = |id: u32, es_len: u32| -> Vec<u8> {
+    let trak_of = |id: u32, es_len: u32, jump: u32| -> Vec<u8> {
         let mut tkhd = TkhdBox::default();
         tkhd.track_id = id;
         let mut mdhd = MdhdBox::default();
@@ -134,13 +134,18 @@ pub fn build_esds_at(tn: u32, region: usize, inner: bool) -> Vec<u8> {
         // stereo with its 2-byte DecoderSpecificInfo), SLConfig (tag 6)
         let l4 = |n: u32| [0x80 | ((n >> 21) & 0x7F) as u8, 0x80 | ((n >> 14) & 0x7F) as u8, 0x80 | ((n >> 7) & 0x7F) as u8, (n & 0x7F) as u8];
         let mut es = vec![3u8];
-        es.extend_from_slice(&l4(es_len));
+        // inner: the ES descriptor's own length is honest (3 + 5 + 17 bytes follow in the box)
+        es.extend_from_slice(&l4(if inner { 30 } else { es_len }));
         es.extend_from_slice(&[0, 1, 0]);
         if inner {
             // the DecoderConfigDescriptor payload starts 8 bytes after the ES descriptor's payload
             es.push(4);
             es.extend_from_slice(&l4(es_len.saturating_sub(8)));
             es.extend_from_slice(&[0x40, 0x15, 0, 0, 0, 0, 0, 0, 0, 0, 0, 0, 0, 5, 2, 0x12, 0x10]);
+            // an uninterpreted descriptor whose (honest, as far as the over-long container goes) length
+            // skips the rest of the movie header and lands in the region of zeros
+            es.push(0x7F);
+            es.extend_from_slice(&l4(jump));
         } else {
             es.extend_from_slice(&[4, 17, 0x40, 0x15, 0, 0, 0, 0, 0, 0, 0, 0, 0, 0, 0, 5, 2, 0x12, 0x10]);
             es.extend_from_slice(&[6, 1, 2]);
@@ -166,10 +171,10 @@ pub fn build_esds_at(tn: u32, region: usize, inner: bool) -> Vec<u8> {
         trak.extend_from_slice(&bx(b"mdia", &mdia));
         bx(b"trak", &trak)
     };
-    let assemble = |lens: &[u32]| -> Vec<u8> {
+    let assemble = |lens: &[(u32, u32)]| -> Vec<u8> {
         let mut moov = ser(&mvhd);
         for i in 0..tn {
-            moov.extend_from_slice(&trak_of(i + 1, lens.get(i as usize).copied().unwrap_or(30)));
+            moov.extend_from_slice(&trak_of(i + 1, lens.get(i as usize).map(|x| x.0).unwrap_or(30), lens.get(i as usize).map(|x| x.1).unwrap_or(0)));
         }
         let mut f = ftyp.clone();
         f.extend_from_slice(&bx(b"moov", &moov));
@@ -179,7 +184,8 @@ pub fn build_esds_at(tn: u32, region: usize, inner: bool) -> Vec<u8> {
     let total = first.len() + 8 + region;
     // the ES descriptor's payload starts 5 bytes after its tag, i.e. 4 (type) + 4 (version/flags) + 5 after "esds"
     let idx: Vec<usize> = (0..first.len().saturating_sub(4)).filter(|&i| &first[i..i + 4] == b"esds").collect();
-    let lens: Vec<u32> = idx.iter().map(|&i| ((total - 4) - (i + 13)) as u32).collect();
+    // (length up to the end of the file, jump from behind the skip descriptor's header at i + 43 to the zeros)
+    let lens: Vec<(u32, u32)> = idx.iter().map(|&i| (((total - 4) - (i + 13)) as u32, ((first.len() + 8).saturating_sub(i + 43)) as u32)).collect();
     let mut file = assemble(&lens);
     file.extend_from_slice(&((8 + region) as u32).to_be_bytes());
     file.extend_from_slice(b"free");
